@@ -151,6 +151,14 @@ void finish_child(Plan const& plan, History const& H, RunInfoBridge const& rb)
     }
     ri.where = w.str();
   }
+  if (getenv("SIM_DUMP"))
+  {
+    for (auto const& e : H.ev)
+    {
+      fprintf(stderr, "EV seq=%lu vt=%lu T%d type=%d a=%ld b=%ld c=%ld d=%ld s=%s\n", e.seq, e.vt, e.thread, e.type, e.a,
+              e.b, e.c, e.d, esc(e.s.substr(0, 60)).c_str());
+    }
+  }
   Verdict v;
   if (rb.stuck_reason.rfind("harness:", 0) == 0)
   {
@@ -426,6 +434,14 @@ static ChildResult run_in_child(Plan const& plan, Profile const* prof, std::stri
     }
     cr.stderr_tail = tail_of_file(scratch + "/stderr.txt", 1500);
     cr.v = Verdict{};
+    if (cr.stderr_tail.find("Failed to sync RdtscClock") != std::string::npos)
+    {
+      // the simulated schedule kept preempting RdtscClock's calibration window; quill documents
+      // that timestamps are then wrong. Not a verdict about any listed property.
+      cr.v.kind = Verdict::INCONCLUSIVE;
+      cr.v.tag = "rdtsc_sync_failed";
+      return cr;
+    }
     cr.v.kind = Verdict::VIOLATION;
     if (WIFSIGNALED(st))
     {
@@ -1296,6 +1312,11 @@ static int replay(Args const& a)
     printf("  detail: %s\n", cr.v.detail.c_str());
   }
   printf("%s", p.to_text().c_str());
+  if (getenv("SIM_TRACE") || getenv("SIM_DUMP"))
+  {
+    (void)!system(("cp '" + root + "/stderr.txt' /tmp/sim_trace.txt").c_str());
+    printf("trace written to /tmp/sim_trace.txt\n");
+  }
   (void)!system(("rm -rf '" + root + "'").c_str());
   if (cr.v.kind == Verdict::VIOLATION)
   {
